@@ -8,6 +8,7 @@
 //@@ include iter.rs
 //@@ include xcheck.rs
 //@@ include opspec.rs
+//@@ include tokpart.rs
 //@@ include remap.rs
 //@@ include reconstruct.rs
 //@@ include textdiff_spec.rs
